@@ -7,12 +7,25 @@ SEQ_ASSUME = [
     "documents are observed through the public read API only; SQLite and go-sqlite3 are trusted",
 ]
 
-CHECKS = {
-    "C01": {
-        "tests": ["TestC01"],
+def seq(tests, qchecks=250, tchecks=6000, qshards=8, **extra):
+    d = {
+        "tests": tests,
         "level": "exploration",
         "assumptions": SEQ_ASSUME,
-        "quick": {"default": {"shards": 8, "checks": 250, "steps": 30, "timeout": 600}},
-        "thorough": {"default": {"shards": 16, "checks": 6000, "steps": 80, "timeout": 3000}},
-    },
+        "quick": {"default": {"shards": qshards, "checks": qchecks, "steps": 30, "timeout": 600}},
+        "thorough": {"default": {"shards": 16, "checks": tchecks, "steps": 80, "timeout": 3000}},
+    }
+    d.update(extra)
+    return d
+
+CHECKS = {
+    "C01": seq(["TestC01"]),
+    "C02": seq(["TestC02Seq"]),
+    "C05": seq(["TestC05"]),
+    "C06": seq(["TestC06"]),
+    "C07": seq(["TestC07"]),
+    "C08": seq(["TestC08Seq"]),
+    "C09": seq(["TestC09Seq"]),
+    "C17": seq(["TestC17"]),
+    "C18": seq(["TestC18Seq"]),
 }
